@@ -97,6 +97,7 @@ pub fn run(ctx: &Ctx) -> Outcome {
     let mut out = Outcome::default();
     let mut scns: Vec<Scenario> = lib::core().into_iter().map(prepare).collect();
     scns.push(prepare(lib::early_shutdown()));
+    scns.push(prepare(lib::wrapped_drop_close()));
     scns.push(prepare(lib::mtu_drop_close(700, None, 6_000)));
     scns.push(prepare(lib::mtu_drop_close(700, Some(600), 6_000)));
     let n_scn = scns.len();
